@@ -18,7 +18,7 @@ from common import Model, hx
 
 logging.disable(logging.CRITICAL)
 
-LEAN_TARGETS = ["NfcVerif.Props.C17", "drv_c17"]
+LEAN_TARGETS = ["NfcVerif.Props.C17", "drv_c17", "NfcVerif.Props.TablesSap", "NfcVerif.Props.TablesPdu"]
 
 THEOREMS = ["NfcVerif.C17." + t for t in [
     "bind_refines_spec", "errno_exact", "bound_socket_refused", "errno_table_partial",
@@ -581,6 +581,7 @@ def renumber_ok(ops):
 
 
 def run(ck):
+    ck.tables("TablesSap", "TablesPdu")   # T-tie for constants: source tables re-extracted, bridge theorems re-proved
     import itertools
     rng = ck.rng
     ck.rule = ("case = one operation history on two coupled real link controllers (socket/bind/listen/connect/accept/"
